@@ -121,6 +121,18 @@ class FlowFields(ImageBatch):
         return axes[0]
 
     @classmethod
+    def from_images(cls: Type[TFlowFields], images: Sequence[Image]) -> TFlowFields:
+        r"""Create batch of flow fields from sequence of flow fields, which must have the same axes."""
+        batch = super().from_images(images)
+        axes = cls._torch_function_axes(list(images))
+        return batch if axes is None else cls(batch.tensor(), batch.grids(), axes)
+
+    def append(self: TFlowFields, other: ImageBatch) -> TFlowFields:
+        r"""Append flow fields of another batch, which must have the same axes."""
+        self._torch_function_axes([self, other])
+        return super().append(other)
+
+    @classmethod
     def _torch_function_result(
         cls, func, data, grid: Optional[Sequence[Grid]], axes: Optional[Axes]
     ) -> Any:
